@@ -85,27 +85,38 @@ fn de<'a>(style: &str, b: &'a [u8]) -> Result<(usize, &'a [u8]), ZVTError> {
 
 /// length n of a style, with trailing data: serialize == reference prefix; deserialize(prefix ‖ d) == (n, d); proper prefixes are errors.
 pub fn check_len(style: &str, n: usize, trailing: &[u8]) -> CheckResult {
-    let input = json!({"style": style, "n": n, "trailing": hex(trailing)});
+    check_len_with(style, n, trailing, &|| json!({"style": style, "n": n, "trailing": hex(trailing)}))
+}
+/// pseudo-random filler bytes (deterministic in (seed, len))
+pub fn fill(seed: u64, len: usize) -> Vec<u8> {
+    (0..len).map(|k| (splitmix(seed ^ (k as u64 / 8)) >> (k % 8 * 8)) as u8).collect()
+}
+/// as check_len, with `len` filler bytes as trailing data (the replay file names seed and length instead of the bytes)
+pub fn check_len_fill(style: &str, n: usize, seed: u64, len: usize) -> CheckResult {
+    let trailing = fill(seed, len);
+    check_len_with(style, n, &trailing, &|| json!({"style": style, "n": n, "fill_seed": seed, "fill_len": len}))
+}
+fn check_len_with(style: &str, n: usize, trailing: &[u8], input: &dyn Fn() -> Value) -> CheckResult {
     let want = ref_prefix(style, n);
-    let got = guard(|| ser(style, n)).map_err(|p| Violation::new("len", format!("C16 style={style} op=serialize kind=panic"), format!("serialize({n}) panicked: {p}"), input.clone()))?;
+    let got = guard(|| ser(style, n)).map_err(|p| Violation::new("len", format!("C16 style={style} op=serialize kind=panic"), format!("serialize({n}) panicked: {p}"), input()))?;
     if got != want {
-        return Err(Violation::new("len", format!("C16 style={style} op=serialize kind=wrong-prefix"), format!("serialize({n}) = {} expected {}", hex(&got), hex(&want)), input));
+        return Err(Violation::new("len", format!("C16 style={style} op=serialize kind=wrong-prefix"), format!("serialize({n}) = {} expected {}", hex(&got), hex(&want)), input()));
     }
     let mut buf = want.clone();
     buf.extend_from_slice(trailing);
     match guard(|| de(style, &buf).map(|(m, r)| (m, r.to_vec()))) {
-        Err(p) => return Err(Violation::new("len", format!("C16 style={style} op=deserialize kind=panic"), format!("deserialize({}) panicked: {p}", hex(&buf)), input)),
-        Ok(Err(e)) => return Err(Violation::new("len", format!("C16 style={style} op=deserialize kind=rejects-valid"), format!("deserialize({}) = Err({e:?}), expected ({n}, {})", hex(&buf), hex(trailing)), input)),
+        Err(p) => return Err(Violation::new("len", format!("C16 style={style} op=deserialize kind=panic"), format!("deserialize({}) panicked: {p}", clip(&hex(&buf), 160)), input())),
+        Ok(Err(e)) => return Err(Violation::new("len", format!("C16 style={style} op=deserialize kind=rejects-valid"), format!("deserialize({}) = Err({e:?}), expected ({n}, {})", clip(&hex(&buf), 160), clip(&hex(trailing), 80)), input())),
         Ok(Ok((m, r))) => {
             if m != n || r != trailing {
-                return Err(Violation::new("len", format!("C16 style={style} op=deserialize kind=wrong-result"), format!("deserialize({}) = ({m}, {}), expected ({n}, {})", hex(&buf), hex(&r), hex(trailing)), input));
+                return Err(Violation::new("len", format!("C16 style={style} op=deserialize kind=wrong-result"), format!("deserialize({}) = ({m}, {}), expected ({n}, {})", clip(&hex(&buf), 160), clip(&hex(&r), 80), clip(&hex(trailing), 80)), input()));
             }
         }
     }
     for cut in 0..want.len() {
         match guard(|| de(style, &want[..cut]).map(|(m, r)| (m, r.len()))) {
-            Err(p) => return Err(Violation::new("len", format!("C16 style={style} op=deserialize-truncated kind=panic"), format!("deserialize({}) (truncated prefix of length {n}) panicked: {p}", hex(&want[..cut])), input)),
-            Ok(Ok((m, _))) => return Err(Violation::new("len", format!("C16 style={style} op=deserialize-truncated kind=accepts-truncated"), format!("deserialize({}) = Ok({m}), expected an error for a truncated prefix", hex(&want[..cut])), input)),
+            Err(p) => return Err(Violation::new("len", format!("C16 style={style} op=deserialize-truncated kind=panic"), format!("deserialize({}) (truncated prefix of length {n}) panicked: {p}", hex(&want[..cut])), input())),
+            Ok(Ok((m, _))) => return Err(Violation::new("len", format!("C16 style={style} op=deserialize-truncated kind=accepts-truncated"), format!("deserialize({}) = Ok({m}), expected an error for a truncated prefix", hex(&want[..cut])), input())),
             Ok(Err(_)) => {}
         }
     }
@@ -207,6 +218,7 @@ pub fn check_empty(data: &[u8], n: usize) -> CheckResult {
 pub fn replay(check: &str, i: &Value) -> Option<CheckResult> {
     let style = i.get("style")?.as_str()?.to_string();
     Some(match check {
+        "len" if i.get("fill_len").is_some() => check_len_fill(&style, i.get("n")?.as_u64()? as usize, i.get("fill_seed")?.as_u64()?, i.get("fill_len")?.as_u64()? as usize),
         "len" => check_len(&style, i.get("n")?.as_u64()? as usize, &unhex(i.get("trailing")?.as_str()?)),
         "bytes" => check_bytes(&style, &unhex(i.get("bytes")?.as_str()?)),
         "fixed" => check_fixed(i.get("width")?.as_u64()? as usize, i.get("n")?.as_u64()? as usize, &unhex(i.get("trailing")?.as_str()?)),
@@ -241,6 +253,45 @@ pub fn run(tier: Tier) -> i32 {
         }
     });
     stats.merge(s1);
+    // 1b. the amount of data behind the prefix: every amount 0..=1100 and some large ones behind representative lengths,
+    //     and for every length the complete object (exactly n bytes of data, nothing more)
+    let s1b = ctx.shards("data-amounts", 64, |i, seed, st| {
+        for style in STYLES {
+            let max = range(style);
+            for n in [0usize, 1, 2, 99, 100, 127, 128, 129, 254, 255, 256, 257, 510, 511, 512, 999, 1000, 65534, 65535] {
+                if n > max {
+                    continue;
+                }
+                let mut t = i as usize;
+                while t <= 1100 {
+                    let r = check_len_fill(style, n, seed ^ n as u64, t);
+                    st.case(t >= 256, fnv(format!("{style}/{n}/amount{t}").as_bytes()));
+                    st.class("data-amount:0..=1100");
+                    ctx.record(r, st);
+                    t += 64;
+                }
+                for t in [4095usize, 4096, 65535, 65536, 65537, 65791, 65792, 100_000] {
+                    if (t + n) % 64 == i as usize {
+                        let r = check_len_fill(style, n, seed ^ n as u64, t);
+                        st.case(true, fnv(format!("{style}/{n}/amount{t}").as_bytes()));
+                        st.class("data-amount:large");
+                        ctx.record(r, st);
+                    }
+                }
+            }
+            let mut n = i as usize;
+            while n <= max {
+                if n > 5 {
+                    let r = check_len_fill(style, n, seed, n);
+                    st.case(true, fnv(format!("{style}/{n}/complete").as_bytes()));
+                    st.class("data-amount:complete-object");
+                    ctx.record(r, st);
+                }
+                n += 64;
+            }
+        }
+    });
+    stats.merge(s1b);
     // 2. Fixed<N>, N = 1..=17, every payload length 0..=N; Empty
     for w in 1..=17usize {
         for len in 0..=w {
@@ -294,13 +345,14 @@ pub fn run(tier: Tier) -> i32 {
     });
     stats.merge(s3);
     stats.exhaustive_parts = vec![
-        "every length 0..=65535 of Tlv and Adpu, 0..=99 of Llv, 0..=999 of Lllv, each with 3 trailing-data variants".into(),
+        "every length 0..=65535 of Tlv and Adpu, 0..=99 of Llv, 0..=999 of Lllv, each with trailing data of 0, 1 and 5 bytes and as a complete object (exactly n bytes)".into(),
+        "19 representative lengths per style x every amount of trailing data 0..=1100 and 4095, 4096, 65535..65537, 65791, 65792, 100000".into(),
         "Fixed<N> for N=1..=17 x every payload length 0..=N".into(),
         "every byte string of length 0..=3 through Tlv, Adpu, Llv, Lllv parsers".into(),
     ];
     ctx.finish(
         stats,
-        "enumeration: every representable length of each style x trailing data {none, 1 byte, 5 pseudo-random bytes}; every byte string of length <= 3 through each parser. non-trivial = length >= 1 / non-empty string; distinct by (style, length, trailing) resp. (style, bytes)",
+        "enumeration: every representable length of each style x trailing data {none, 1 byte, 5 pseudo-random bytes, exactly n bytes}; 19 representative lengths per style x every amount of data 0..=1100 behind the prefix plus 4095 / 4096 / 65535..65537 / 65791 / 65792 / 100000; every byte string of length <= 3 through each parser. non-trivial = length >= 1 / non-empty string; distinct by (style, length, trailing) resp. (style, bytes)",
         &["Reference prefix functions (this file) transcribe ZVT/BER length rules; lengths above a style's range are outside the property and not generated", "LLVAR strings with non-F high or non-decimal low nibbles and BER first bytes 0x80/0x83.. are only required not to panic"],
         true,
     )
